@@ -146,6 +146,10 @@ func c10Err(kind string) error {
 func (c *c10Client) Get(ctx context.Context, name string) (*api.SecretValue, error) {
 	start := time.Since(c.epoch)
 	c.mu.Lock()
+	if len(c.log) > c10ReqCap {
+		c.mu.Unlock()
+		panic("c10: request cap exceeded")
+	}
 	j := c.count[name]
 	c.count[name]++
 	sc, ok := c.scripts[name]
@@ -355,9 +359,14 @@ func c10Rounds(log []c10Req) [][]string {
 	return out
 }
 
+// a NewStore that issues more requests than this in one call is treated as not returning
+const c10ReqCap = 3000
+
 const c10Epoch = 946684800 // the bubble's clock starts at 2000-01-01T00:00:00Z
 
-func c10Scenario(t *testing.T, in c10Input, work string, idx int) (obs c10Obs, direct *DirectVerdict) {
+// c10Scenario runs one NewStore.  With probe=false the declared values are read right after
+// construction (sanity: every handle must work); with probe=true a poll is run first.
+func c10Scenario(t *testing.T, in c10Input, work string, idx int, probe bool) (obs c10Obs, direct *DirectVerdict) {
 	epoch := time.Now()
 	if epoch.Unix() != c10Epoch {
 		return obs, &DirectVerdict{OK: false, What: "unexpected bubble epoch"}
@@ -444,7 +453,7 @@ func c10Scenario(t *testing.T, in c10Input, work string, idx int) (obs c10Obs, d
 	obs.Reqs = append([]c10Req(nil), cli.log...)
 	if panicked {
 		obs.Class = "panic"
-		return obs, &DirectVerdict{OK: false, What: "NewStore panicked"}
+		return obs, &DirectVerdict{OK: false, What: "NewStore panicked, or kept requesting without end (request cap)"}
 	}
 	if err != nil {
 		obs.Class = "err"
@@ -459,22 +468,21 @@ func c10Scenario(t *testing.T, in c10Input, work string, idx int) (obs c10Obs, d
 		_, obs.Writes = c10CoqDocs(cache.writes)
 		cache.writes = nil
 	}
-	// probe poll
-	time.Sleep(time.Duration(in.ProbeDtS) * time.Second)
-	obs.POK = st.Refresh(context.Background()) == nil
-	obs.PReqs = append([]c10PReq(nil), cli.plog...)
-	if cache != nil {
-		_, obs.PWrites = c10CoqDocs(cache.writes)
+	if probe {
+		// probe poll
+		time.Sleep(time.Duration(in.ProbeDtS) * time.Second)
+		obs.POK = st.Refresh(context.Background()) == nil
+		obs.PReqs = append([]c10PReq(nil), cli.plog...)
+		if cache != nil {
+			_, obs.PWrites = c10CoqDocs(cache.writes)
+		}
 	}
 	// values served
 	obs.Vals = map[string]int64{}
 	for _, n := range c10Distinct(c10Declared(in)) {
 		func() {
-			defer func() {
-				if r := recover(); r != nil {
-					obs.Vals[n] = -1
-				}
-			}()
+			obs.Vals[n] = -2 // stays if Secret or the handle panics
+			defer func() { recover() }()
 			sec := st.Secret(n)
 			if sec == nil {
 				obs.Vals[n] = -1
@@ -841,7 +849,18 @@ func runC10(o Opts) {
 		for i, in := range inputs {
 			var obs c10Obs
 			var direct *DirectVerdict
-			bubble(t, func(t *testing.T) { obs, direct = c10Scenario(t, in, work, i) })
+			bubble(t, func(t *testing.T) { obs, direct = c10Scenario(t, in, work, i, false) })
+			bad := ""
+			for _, k := range sortedKeys(obs.Vals) {
+				if obs.Vals[k] == -2 {
+					bad = k
+				}
+			}
+			if direct == nil && bad != "" {
+				direct = &DirectVerdict{OK: false, What: fmt.Sprintf("NewStore succeeded but Secret(%q) or its handle panics: the declared secret has no value", bad)}
+			} else if direct == nil && obs.Class == "ok" {
+				bubble(t, func(t *testing.T) { obs, direct = c10Scenario(t, in, work, i, true) })
+			}
 			key, _ := json.Marshal(in)
 			rec := Record{Kind: "newstore", Input: in, Obs: obs, Key: string(key), Tags: c10Tags(in, obs), Direct: direct}
 			if direct == nil || obs.Class == "panic" {
